@@ -20,3 +20,6 @@ pub use pool::TxPool;
 pub use process::PlugTarget;
 pub use service::{TxPoolController, TxPoolServiceBuilder};
 pub use tokio::sync::RwLock as TokioRwLock;
+
+#[cfg(feature = "verif-hooks")]
+pub mod verif;
